@@ -251,8 +251,51 @@ def handlePredict (ims : Bool) (args impl : List String) : Option Reply := do
   | _ =>
     pure { model := "?", agree := false, spec := if impl == ["panic"] then "bad:panic" else "bad:shape" }
 
+/-! ### `predpools` / `chainpools`: the same computation under rayon pools of 1, 2, 4, 16 threads
+
+Bound for `predpools` (derived from the f64 sum sizes): in `RetentionModel::fit` / `MobilityModel::fit`
+every floating-point reduction — `rt.iter().sum()`, the variance, each cell of `Matrix::dot`
+(`fold(0.0, |acc,(x,y)| acc + x*y)` over a row/column), the squared error, `predict_peptide`'s fold — is
+a *sequential* fold; the only parallel constructs are order-preserving `collect`s and a per-cell /
+per-feature `map`. The number of terms whose order can depend on the pool is therefore 0 and the
+summation-error bound `(k−1)·u·Σ|tᵢ|` over the reorderable terms is 0: replies must be bit-identical.
+A difference is reported as `bad:thread_dependent_prediction@r=<max ulp64>,pred=<max ulp32>`. -/
+
+def splitBlocks (k : Nat) (toks : List String) : Option (List (List String)) :=
+  if k == 0 then (if toks.isEmpty then some [] else none) else
+  if toks.length % k != 0 then none else
+  let m := toks.length / k
+  some ((List.range k).map fun i => (toks.drop (i * m)).take m)
+
+def handlePools (chain : Bool) (impl : List String) : Option Reply :=
+  match impl with
+  | ["panic"] => some { model := "pool-independent", agree := false, spec := "bad:panic" }
+  | kTok :: rest =>
+    match kTok.toNat?, (kTok.toNat?).bind (fun k => splitBlocks k rest) with
+    | some _, some (b0 :: bs) =>
+      let same := bs.all (· == b0)
+      let model := " ".intercalate (kTok :: (b0 :: bs).flatMap (fun _ => b0))
+      if same then some { model := model, agree := true, spec := "ok" } else
+      -- measure the disagreement: tokens are bit patterns; compare position-wise with block 0
+      let dist (a b : String) : Nat :=
+        match a.toNat?, b.toNat? with
+        | some x, some y =>
+          if x < 2^32 && y < 2^32 then ulpDistF32 (Float32.ofBits x.toUInt32) (Float32.ofBits y.toUInt32)
+          else ulpDistF64 (Float.ofBits x.toUInt64) (Float.ofBits y.toUInt64)
+        | _, _ => 0
+      let worst := bs.foldl (fun w b => (b0.zip b).foldl (fun w (x, y) => max w (dist x y)) w) 0
+      if chain then
+        -- observational: alignment sums follow DashMap order, which depends on the schedule
+        some { model := model ++ s!" # pool-dependent, max ulp distance {worst}", agree := true, spec := "na" }
+      else
+        some { model := model, agree := false, spec := s!"bad:thread_dependent_prediction@maxulp={worst}" }
+    | _, _ => some { model := "pool-independent", agree := false, spec := "bad:shape" }
+  | [] => some { model := "pool-independent", agree := false, spec := "bad:shape" }
+
 def handle (op : String) (args impl : List String) : Option Reply :=
   match op with
+  | "predpools" => handlePools false impl
+  | "chainpools" => handlePools true impl
   | "align" => handleAlign args impl
   | "rtpredict" => handlePredict false args impl
   | "imspredict" => handlePredict true args impl
